@@ -3,7 +3,7 @@ From Coq Require Import List NArith ZArith String.
 From IonV Require Import Base.Wire Bin.Bits.
 Import ListNotations.
 Open Scope N_scope.
-Open Scope string_scope.
+Local Open Scope string_scope.
 
 Definition outN (n : N) : list N := join_sp [s "ok"; dec_of_N n].
 Definition outB (b : list N) : list N := join_sp [s "ok"; xhex b].
